@@ -38,6 +38,8 @@ DATETIMES = [datetime.datetime(2001, 1, 1, 10, 0, 0), datetime.datetime(2001, 1,
              datetime.datetime(2001, 1, 1, 10, 0, 0, tzinfo=UTC),
              datetime.datetime(2001, 1, 1, 10, 0, 0, tzinfo=datetime.timezone(datetime.timedelta(hours=5, minutes=30))),
              datetime.datetime(1, 1, 1, 0, 0, 0), datetime.datetime(9999, 12, 31, 23, 59, 59, 999999)]
+# a UTC offset with seconds (historical local mean times such as +00:19:32): a family of its own, see known_findings.json
+DATETIME_OFFSET_SECONDS = datetime.datetime(1930, 1, 1, 10, 0, 0, tzinfo=datetime.timezone(datetime.timedelta(seconds=3661)))
 PATHS = [pathlib.Path('a/b'), pathlib.Path('/abs/x y'), pathlib.Path('.'), pathlib.Path('1'), pathlib.Path('true'),
          pathlib.Path('~'), pathlib.Path('~/data'), pathlib.Path('~root/x'), pathlib.Path('a/../b'), pathlib.Path('..'),
          pathlib.Path('$HOME/x'), pathlib.Path('a b '), pathlib.Path('é/ü'), pathlib.Path('null'), pathlib.Path('1e5'), pathlib.Path('a: b')]
